@@ -6,4 +6,9 @@ cd /verif
 cp /repo/go.sum go.sum
 mkdir -p bin evidence
 go build -tags verif -o bin/vcheck ./cmd/vcheck
+ovdir=$(mktemp -d "${TMPDIR:-/tmp}/verif-ov.XXXXXX")
+go run ./cmd/instr -repo /repo -out "$ovdir"
+go build -tags verif,verifov -overlay "$ovdir/overlay.json" -o bin/vcheck-ov ./cmd/vcheck
+rm -rf "$ovdir"
+go build -race -tags verif -o bin/vrace ./cmd/vrace
 echo "setup ok"
